@@ -10,6 +10,10 @@
 // violations against KNOWN_FINDINGS.txt and writes the evidence file.
 #pragma once
 #include <algorithm>
+#include <cerrno>
+#include <cfenv>
+#include <iostream>
+#include <locale>
 #include <cinttypes>
 #include <cmath>
 #include <csignal>
@@ -27,6 +31,9 @@
 #include <sys/mman.h>
 #include <unistd.h>
 #include <unordered_set>
+#if defined(__x86_64__) || defined(__i386__)
+#include <xmmintrin.h>
+#endif
 #include <utility>
 #include <vector>
 
@@ -356,12 +363,63 @@ inline int run(
   uint64_t first = c.start, last = c.N;
   if (c.only >= 0) {first = c.only; last = c.only + 1; c.verbose = true; c.shard = 0; c.nshards = 1;}
   uint64_t done = 0;
+  // process-wide state the library has no business changing, captured once and compared after
+  // every case (a facility that "borrows" the rounding mode, the flush-to-zero bits, the formatting
+  // of the standard streams or the global locale and does not give them back breaks every other
+  // facility used afterwards)
+  struct ProcessState
+  {
+    int rounding; unsigned mxcsr_mode; std::ios_base::fmtflags cout_flags, cerr_flags;
+    std::streamsize cout_prec, cerr_prec; std::string locale_name;
+    static ProcessState now()
+    {
+      ProcessState p;
+      p.rounding = fegetround();
+#if defined(__x86_64__) || defined(__i386__)
+      p.mxcsr_mode = _mm_getcsr() & 0xFFC0u;      // rounding control, FTZ, DAZ and exception masks (not the sticky flags)
+#else
+      p.mxcsr_mode = 0;
+#endif
+      p.cout_flags = std::cout.flags(); p.cerr_flags = std::cerr.flags();
+      p.cout_prec = std::cout.precision(); p.cerr_prec = std::cerr.precision();
+      p.locale_name = std::locale().name();
+      return p;
+    }
+    bool operator==(const ProcessState & o) const
+    {
+      // (the formatting state of std::cout / std::cerr is recorded for the witness only: several
+      // monitors change it themselves as part of their interference classes)
+      return rounding == o.rounding && mxcsr_mode == o.mxcsr_mode && locale_name == o.locale_name;
+    }
+  };
+  const ProcessState state0 = ProcessState::now();
+  static const int ERRNO_VALUES[4] = {0, EDOM, ERANGE, EINTR};
   for (uint64_t idx = first; idx < last; ++idx) {
     if (c.only < 0 && static_cast<int>(idx % c.nshards) != c.shard) {continue;}
     c.cur = idx;
     c.state[0] = idx + 1;
     ++c.evaluations;
+    // a stale error indicator left by unrelated code of the application: results must not depend on it
+    errno = ERRNO_VALUES[(idx / 3) % 4];
+    // likewise the sticky floating-point exception flags of the thread (left raised by an earlier
+    // log(0) or 0/0 of the application, or all clear)
+    static const int FLAG_SETS[4] = {0, FE_DIVBYZERO, FE_INVALID | FE_OVERFLOW, FE_ALL_EXCEPT};
+    feclearexcept(FE_ALL_EXCEPT);
+    if (FLAG_SETS[(idx / 12) % 4]) {feraiseexcept(FLAG_SETS[(idx / 12) % 4]);}
     one_case(c, idx);
+    if (!(ProcessState::now() == state0)) {
+      const ProcessState n = ProcessState::now();
+      c.violation("process_state_changed", Params{{"rounding_mode", (double)n.rounding}, {"mxcsr_mode_bits", (double)n.mxcsr_mode}},
+        J().s("what", "rounding mode, MXCSR control bits (rounding control, FTZ, DAZ, exception masks) or the global locale differ from their values at start")
+        .f("rounding_before", state0.rounding).f("rounding_after", n.rounding).f("mxcsr_before", state0.mxcsr_mode).f("mxcsr_after", n.mxcsr_mode)
+        .f("cout_flags_before", (double)state0.cout_flags).f("cout_flags_after", (double)n.cout_flags)
+        .f("cout_precision_after", (double)n.cout_prec).s("locale_after", n.locale_name).str());
+      fesetround(state0.rounding);
+#if defined(__x86_64__) || defined(__i386__)
+      _mm_setcsr((_mm_getcsr() & ~0xFFC0u) | state0.mxcsr_mode);
+#endif
+      std::locale::global(std::locale::classic());
+    }
     c.state[1] = ++done;
   }
   c.state[0] = 0;
